@@ -49,10 +49,12 @@ var tagDict = []string{
 	"{log}", "{/log}", "{debugger}", "{sp}", "{nil}", "{\\n}", "{\\r}", "{\\t}", "{lb}", "{rb}", "{\\x}", "{\\",
 	"{{$x}}", "{{$x}", "{{", "}}", "{", "}", "{}", "{/}", "{/foo}", "{delcall a}", "{deltemplate a}", "{delpackage a}",
 	"text", " ", "\n", "\r\n", "<b>", "http://x", "a//b", "\x00", "\xff\xfe", "é", " ", "{1?2:3}", "{[1,2}", "{['a':1]}", "{[:]}", "{f(}", "{f(1,}", "{0x}", "{1e}", "{1.}", "{-}", "{not}", "{$x ?:}", "{$x ? 1}", "{$x?[}", "{$x?.}", "{$x.}", "{.5}",
+	// letters, digits and spaces outside ASCII (the scanner classifies runes with the unicode tables in places)
+	"{-٣}", "{٣}", "{$x.٣}", "{$x?.३}", "{３ + 1}", "{$é}", "{é}", "{$x.é}", "{Ⅷ}", "{x²}", "{$a\u00a0+ 1}", "{$a\u2003}", "{\u00a0}", "{if $x > -٣}", "{$x|é}", "{call .é /}", "{let $é: 1 /}", "{@param é: ?}", "{namespace é}",
 }
 
 // exprDict is the expression token dictionary for parse.Expr.
-var exprDict = []string{"1", "-1", "0x1F", "1.5", "2e3", "1e", "'s'", "'\\u00e9'", "'\\x'", "'", "\"", "null", "true", "$x", "$x.y", "$x?.y", "$x[0]", "$x?[", "$ij.a", "$", "a.b", "f(", "f(1)", ")", "(", "[", "]", "[:]", ":", ",", "?", "?:", "+", "-", "*", "/", "%", "<", "<=", "==", "!=", "!", "=", "and", "or", "not", "|", "}", "{", " ", "\n", "é", "\x00", "\xff", ".", ".5", "1.", "1 2 3", "@", "@param", "//", "/*"}
+var exprDict = []string{"1", "-1", "0x1F", "1.5", "2e3", "1e", "'s'", "'\\u00e9'", "'\\x'", "'", "\"", "null", "true", "$x", "$x.y", "$x?.y", "$x[0]", "$x?[", "$ij.a", "$", "a.b", "f(", "f(1)", ")", "(", "[", "]", "[:]", ":", ",", "?", "?:", "+", "-", "*", "/", "%", "<", "<=", "==", "!=", "!", "=", "and", "or", "not", "|", "}", "{", " ", "\n", "é", "\x00", "\xff", ".", ".5", "1.", "1 2 3", "@", "@param", "//", "/*", "٣", "-٣", "３", ".٣", "é", "$é", "Ⅷ", "²", "\u00a0", "\u2003", "-", "- ", "--"}
 
 var (
 	corpusOnce []string
